@@ -36,6 +36,20 @@ PROPS = {
         "expected_probes": ["operand_pairs", "exhaustive_small_width", "unequal_widths", "proof_batches"],
         "components_real": ["protocol::basics::mul::{semi_honest, dzkp_malicious}, protocol::boolean::or, ipa_prf::boolean_ops::{addition_sequential, comparison_and_subtraction_sequential}, DZKP validators, Gateway, PRSS, in-memory transport"],
     },
+    "C04": {
+        "level": "fault_enumeration",
+        "rule": "run = seeded MAC-protected workload over {Fp31, Fp32BitPrime, Fp25519} (upgrade -> multiply -> validate_record -> reveal, 1..24 records, active work {2,4,8,16} so that "
+                "several MAC batches incl. a partial last one are formed) or the real pseudonym function eval_dy_prf; executed honestly (must validate and open x*y resp. g^(1/(k+x))), then - in c04_tamper - "
+                "replayed with the same seed while one helper adds +1 to one field element (or flips a bit) in one chunk it sends, the site drawn from the honest run's channel inventory stratified by step "
+                "(upgrade, multiply, duplicate multiply, propagate u/w, reveal r, check-zero multiply and reveal, opening); non-trivial iff delivered; distinct by (shape, site, schedule digest)",
+        "scenarios": [
+            {"name": "c04_mac", "quick": 2000, "thorough": 100000, "offset": 1, "chunk": 50, "run_timeout": 120},
+            {"name": "c04_tamper", "quick": 6000, "thorough": 300000, "offset": 2, "chunk": 100, "run_timeout": 120, "crash_ok": True},
+        ],
+        "stat_rules": [{"num": "fp31_tamper_accepted_wrong", "den": "fp31_tamper_delivered", "p0": 0.1, "class": "mac_fp31_acceptance_rate", "scenario": "c04_tamper"}],
+        "expected_probes": ["mac_batches", "partial_last_batch", "prf_records", "tamper_rejected_or_aborted", "fp31_tamper_delivered"],
+        "components_real": ["protocol::context::{validator (MAC), malicious}, basics::{mul::malicious, check_zero, reveal}, ipa_prf::prf_eval, secret_sharing::replicated::malicious, Gateway, PRSS, in-memory transport"],
+    },
     "C05": {
         "level": "exploration",
         "rule": "run = seeded (shards in {1,2,3,5}, row type in {32-bit, 64-bit, 112-bit hybrid report, 32-bit aggregateable report}, 0..80 unique rows, "
@@ -134,6 +148,12 @@ NOT_APPLICABLE = {
 }
 
 MANIFEST_TEXT = {
+    "C04": {
+        "text": "Fault enumeration over the real MAC validator and openings: honest executions over three fields and the real pseudonym function must validate and open exactly x*y / g^(1/(k+x)) on all helpers; then the same seed is replayed with one helper adding an error to one field element (or flipping a bit) of one chunk it sends, at a site drawn from the honest run's inventory stratified over every step of upgrade, multiply, duplicate multiply, propagate-u/w, reveal-r, check-zero and the opening. Violation iff both honest helpers validate and open a value different from the true one (32-bit and 255-bit fields); for the 5-bit field the acceptance rate over the batch must stay below 0.1 plus a 6.5-sigma margin. Sites are sampled.",
+        "design_ref": "DESIGN.md section 4, C04",
+        "note": "soundness error 1/|F| per check is assumed for the large fields (2^-32, 2^-252); the Fp31 rule has a one-sided false-alarm probability < 1e-9 for any seed",
+        "technique": "deterministic simulation: honest run + same-seed replay with single-site additive/bit error, channel inventory stratified by protocol step",
+    },
     "C03": {
         "text": "Fault enumeration over the real DZKP validators: every run first executes a seeded Boolean circuit honestly in malicious mode (all three helpers must validate; results must be correct - the 'honest batches are accepted' half), then replays the same seed with one helper rewriting one chunk at a site drawn from the honest run's channel inventory, stratified by step so that multiplication messages of every bit step and every proof message kind are hit. Violation iff both honest helpers validate and (a) the site was a multiplication message, or (b) their shares no longer open to the right result. Sites are sampled, not all enumerated, in the quick tier.",
         "design_ref": "DESIGN.md section 4, C03",
